@@ -177,6 +177,13 @@ func (f *fnSpec) run(got []reflect.Value) (outs []reflect.Value, nilPtr bool, er
 		for _, v := range got {
 			os = append(os, fmt.Sprint(vidOf(v)))
 		}
+		if len(f.Outs) == 1 && f.Outs[0].Ty == tyError && len(got) == 1 {
+			// func(error) error: the single result IS the function's error — a non-nil argument makes it fail
+			if e, ok := got[0].Interface().(*E0); ok && e != nil {
+				f.sc.events = append(f.sc.events, fmt.Sprintf("%s err=%d", ev, e.ID))
+				return got, false, nil
+			}
+		}
 		f.sc.events = append(f.sc.events, fmt.Sprintf("%s outs=%s", ev, strings.Join(os, ",")))
 		return got, false, nil
 	}
@@ -250,13 +257,28 @@ func (f *fnSpec) build(sc *scenario, extra ...am.Arg) error {
 	}
 	f.raw = reflect.MakeFunc(ft, body).Interface()
 	f.rtype = ft
-	opts := extra
-	if f.Once {
-		opts = append(opts, am.FuncOnce())
-	}
+	opts := append(extra, f.ownOpts()...)
 	fn, err := am.NewFunc(f.raw, opts...)
 	f.fn = fn
 	return err
+}
+
+// ownOpts: the options a function is constructed with besides its defaults: FuncOnce for run-once functions,
+// and (by the parity of its id, so that rebuilding gives the same object) a FuncName before or after it
+func (f *fnSpec) ownOpts() []am.Arg {
+	var opts []am.Arg
+	name := am.FuncName(fmt.Sprintf("fn%d", f.ID))
+	switch f.ID % 3 {
+	case 0:
+		opts = append(opts, name)
+	}
+	if f.Once {
+		opts = append(opts, am.FuncOnce())
+	}
+	if f.ID%3 == 1 {
+		opts = append(opts, name)
+	}
+	return opts
 }
 
 func valuesFor(ls []lab) []am.Value {
@@ -281,10 +303,7 @@ func (f *fnSpec) buildBuilt(extra ...am.Arg) error {
 		}
 	}
 	f.HasErr = true // BuildFunc always appends an error result
-	opts := extra
-	if f.Once {
-		opts = append(opts, am.FuncOnce())
-	}
+	opts := append(extra, f.ownOpts()...)
 	fn, err := am.BuildFunc(inSet, outSet, func(in, out *am.ValueSet) error {
 		var got []reflect.Value
 		if in != nil {
